@@ -412,6 +412,10 @@ func (f *File) findAndReadMfra(r io.Reader) error {
 	if !ok {
 		return fmt.Errorf("expecting mfra box, but got %T", b)
 	}
+	if len(mfra.Tfras) == 0 { // mfra without tfra gives no segment information
+		_, err = rs.Seek(0, io.SeekStart)
+		return err
+	}
 	f.tfra = mfra.Tfras[0]
 	for i := 1; i < len(mfra.Tfras); i++ {
 		if mfra.Tfras[i].TrackID == f.tfra.TrackID {
